@@ -234,6 +234,66 @@ def api_table(chk, tmp):
     return tables
 
 
+def leftover_files(chk, tmp):
+    """'creating a file never overwrites an existing one unless overwriting was requested', whatever the existing file is:
+    a file left behind by an interrupted writer (flag still set, buffers flushed: it opens with the warning), a file that is not
+    HDF5 at all, a complete file.  Every non-overwriting creation must refuse and leave the bytes alone."""
+    import oqupy
+    from harness.impl import quiet
+    corr = oqupy.PowerLawSD(alpha=0.05, zeta=1, cutoff=3.0, cutoff_type="exponential")
+    bath = oqupy.Bath(0.5 * oqupy.operators.sigma("z"), corr)
+    par = oqupy.TempoParameters(dt=0.1, epsrel=1e-4, dkmax=2)
+    src = os.path.join(tmp, "leftover_src.hdf5")
+    w = ptm.FileProcessTensor("write", src, 2, name="INTERRUPTED")
+    w.set_mpo_tensor(0, np.ones((1, 2, 4, 4), dtype=complex))
+    w.set_cap_tensor(0, np.ones(1, dtype=complex))
+    w._f.flush()
+    interrupted = open(src, "rb").read()          # what is on disk while the writer is still at work
+    w.close()
+    complete = open(src, "rb").read()
+    kinds = {"interrupted-writer": interrupted, "not-hdf5": b"this is not an HDF5 file\n" * 20, "complete": complete}
+
+    def simple():
+        pt = ptm.SimpleProcessTensor(2, dt=0.1)
+        pt.set_mpo_tensor(0, np.ones((1, 1, 4), dtype=complex))
+        pt.set_cap_tensor(0, np.ones(1, dtype=complex))
+        pt.set_cap_tensor(1, np.ones(1, dtype=complex))
+        return pt
+    creators = {
+        "FileProcessTensor('write')": lambda fn: ptm.FileProcessTensor("write", fn, 2),
+        "SimpleProcessTensor.export(overwrite=False)": lambda fn: simple().export(fn, overwrite=False),
+        "pt_tempo_compute(process_tensor_file, overwrite=False)": lambda fn: oqupy.pt_tempo_compute(bath, 0.0, 0.2, parameters=par, process_tensor_file=fn,
+                                                                                                overwrite=False, progress_type="silent"),
+        "PtTempo(process_tensor_file, overwrite=False)": lambda fn: oqupy.PtTempo(bath, 0.0, 0.2, par, process_tensor_file=fn, overwrite=False),
+    }
+    k = 0
+    for kind, content in kinds.items():
+        for cname, create in creators.items():
+            k += 1
+            fn = os.path.join(tmp, f"leftover_{k}.hdf5")
+            open(fn, "wb").write(content)
+            info = {"kind": "leftover-file", "existing_file": kind, "creator": cname}
+            chk.search_cases += 1
+            chk.count("leftover_files")
+            chk.case(info, ("leftover", kind, cname))
+            raised = None
+            try:
+                with warnings.catch_warnings():
+                    warnings.simplefilter("ignore")
+                    obj = quiet(create, fn)
+                try:
+                    obj.close()
+                except Exception:
+                    pass
+            except Exception as ex:
+                raised = ex
+            if open(fn, "rb").read() != content:
+                chk.fail("clobbered", f"{cname} on an existing file ({kind}) changed it although overwriting was not requested"
+                         + ("" if raised is None else f" (and raised {raised!r})"), info)
+            elif raised is None:
+                chk.fail("create-on-existing-succeeds", f"{cname} on an existing file ({kind}) neither raised nor touched the file", info)
+
+
 def run(chk):
     rng = chk.rng
     thorough = chk.tier == "thorough"
@@ -251,6 +311,8 @@ def run(chk):
             exprs.append("api_table")
             expected.append(("api", tab))
             meta.append({"kind": "api-table", "entry": entry})
+
+        leftover_files(chk, tmp)
 
         # (b) crash enumeration on the real writers
         jobs = []
